@@ -92,7 +92,9 @@ def check_comb(case):
         random.random, random.randint = orig
     out = []
     r = aslist(r)
-    if aslist(xin) != list(x0):
+    # C17 does not speak about the argument; the list case is kept because DESIGN A.8 states it for lists
+    # (numpy arrays are views under x[:], so an in-place member reaches the caller's array: observation O6)
+    if aslist(xin) != list(x0) and isinstance(xin, list):
         out.append((key('input-unmodified'), 'input %r became %r' % (x0, aslist(xin))))
     if len(log) != 1:
         out.append((key('one-path'), 'markers fired: %r' % (log,)))
